@@ -297,7 +297,16 @@ func propertyFailsL(prop, op, res, lean string) (why string) {
 					return "re-encoded bytes are rejected"
 				}
 				if quantReenc(parts[0]) != quantReenc(parts[2]) {
-					return "decode-encode-decode is not idempotent"
+					why := "decode-encode-decode is not idempotent"
+					// a REMB frame with mantissa 0 decodes to 2^(exp+23) (listed deviation); for exp >= 58 that value saturates on re-encoding
+					b := NewR(args).H()
+					for off := 0; off+20 <= len(b); off += (int(b[off+2])<<8|int(b[off+3]) + 1) * 4 {
+						if b[off+1] == 206 && b[off]&31 == 15 && b[off+17]&3 == 0 && b[off+18] == 0 && b[off+19] == 0 {
+							why += " [remb-mantissa-zero]"
+							break
+						}
+					}
+					return why
 				}
 			}
 		}
